@@ -1,7 +1,6 @@
 package props
 
 import (
-	"fmt"
 	"testing"
 
 	"pgregory.net/rapid"
@@ -307,49 +306,13 @@ func TestC03(t *testing.T) {
 				if lateIdx >= 2 {
 					rt.Skip("enough late indexes")
 				}
+				op, ok := g.lateIndexOp(rt, w.m, lateIdx+1)
+				if !ok {
+					rt.Skip("the AddIndex helper supplies no throughput")
+				}
 				lateIdx++
-				t := w.m.Tables[s.Table]
-				ix := model.IndexSchema{Name: fmt.Sprintf("late%d", lateIdx), Global: true}
-				cands := append([]string{"g1", "g2", "r1", "r2"}, "sk", "a", "b")
-				ix.Hash = rapid.SampledFrom(cands).Draw(rt, "lateHash")
-				if rapid.Bool().Draw(rt, "lateHasRange") {
-					ix.Range = rapid.SampledFrom(cands).Filter(func(a string) bool { return a != ix.Hash }).Draw(rt, "lateRange")
-				}
-				attrs := map[string]string{}
-				helper := rapid.IntRange(0, 3).Draw(rt, "viaHelper") == 0
-				for _, a := range []string{ix.Hash, ix.Range} {
-					if a == "" {
-						continue
-					}
-					if ty, ok := t.Schema.Attrs[a]; ok {
-						attrs[a] = ty
-						if ty != "S" {
-							helper = false
-						}
-					} else {
-						attrs[a] = "S"
-					}
-				}
-				if helper {
-					ix.ViaHelper, ix.NoThroughput = true, true
-					if t.Schema.Billing != "PAY_PER_REQUEST" {
-						rt.Skip("the AddIndex helper supplies no throughput")
-					}
-				}
-				step(model.Op{Kind: "AddIndex", Table: s.Table, IndexSchema: &ix, IndexAttrs: attrs})
-				if w.m.Tables[s.Table].Schema.FindIndex(ix.Name) != nil {
-					for _, a := range []string{ix.Hash, ix.Range} {
-						if a == "" || a == s.Hash || a == s.Range {
-							continue
-						}
-						if _, ok := g.ixVals[a]; !ok {
-							for i := 0; i < 2; i++ {
-								g.ixVals[a] = append(g.ixVals[a], drawKeyValue(rt, attrs[a], o, "lateIxVal"))
-							}
-						}
-					}
-					g.s = w.m.Tables[s.Table].Schema
-				}
+				step(op)
+				g.adoptLateIndex(rt, w.m, op)
 			},
 			"delIndex": func(rt *rapid.T) {
 				t := w.m.Tables[s.Table]
